@@ -910,6 +910,9 @@ func c03R10(p *core.Program, r *core.Report) {
 				continue
 			}
 			n++
+			if sel.Sel.Name == "WriteTo" && fileMethod(p, "WriteToFile") != nil && fileMethod(p, "WriteToFile").Has(f) {
+				continue // body.WriteTo(dst) in the file writer is io.Copy(dst, body): the final read
+			}
 			if !grows[sel.Sel.Name] {
 				bad++
 				r.Bad(rule, f, "the rendered body is cut back or consumed: "+core.ExprStr(c.Fun), c.Pos(), "text that was rendered is removed from the file's body ("+sel.Sel.Name+") while the packages it registered stay in the import tracker: the import block lists a package the body no longer references (imported and not used)")
